@@ -324,6 +324,9 @@ func c05Server() *httptest.Server {
 
 func c05InterpHTTP(c c05HTTPCase) (v kit.Verdict) {
 	defer c05EnvCleanup()
+	if msg := c05History(nil); msg != "" {
+		return kit.Verdict{Fail: msg, Classes: []string{"history-panic"}}
+	}
 	cc := c05Case{S: c.S, D: c.D}
 	target, ok := c05Target(&cc)
 	if !ok || c.D.T != "obj" {
